@@ -360,6 +360,11 @@ var vhShrinkOps2 = [][]string{
 	{"DEL", "a", "new"},
 	{"PERSIST", "a", "new"},
 	{"SET", "zcol", "x", "FIELD", "f", "1", "STRING", "later"},
+	// the object or collection an earlier write touched goes away again before the rewrite reaches it: the rewritten
+	// log then holds a write to something that no longer exists, which a restart must tolerate
+	{"DEL", "b", "id10"},
+	{"DROP", "b"},
+	{"DEL", "a", "id02"},
 }
 
 //verif:cfg use=dirmodel b_dataset=2_collections(3+3_objects)+1_channel b_interference=1_write(15_kinds)_optionally_followed_by_a_second(7_kinds)_before_any_lock_acquisition_of_the_rewrite ignorego=1 maxsteps=40000000
